@@ -71,10 +71,11 @@ class Deps:
                 diags.append({"code": None, "message": l[:500], "rendered": l[:500]})
         return p.returncode == 0, diags
 
-    def compile_many(self, jobs, workers=16):
-        """jobs: list of (src, out). returns list of (ok, diags) in order."""
+    def compile_many(self, jobs, workers=16, extra=()):
+        """jobs: list of (src, out). returns list of (ok, diags) in order. extra: further rustc flags (-C opt-level=3 ...;
+        a later -C opt-level overrides the default one)"""
         with cf.ThreadPoolExecutor(max_workers=workers) as ex:
-            return list(ex.map(lambda j: self.compile(j[0], j[1]), jobs))
+            return list(ex.map(lambda j: self.compile(j[0], j[1], extra=extra), jobs))
 
 
 def run_prog(exe, args=(), timeout=300, stdin=None):
